@@ -1,10 +1,11 @@
 (* C02 -- model side of the correspondence check.
-   The model of every anchored routine except the two elliptical constructors is GENERATED from /repo on every run
-   (Gen/Gen_geometry.v, py2v plug-in py2v/gen_geometry.py).  The elliptical constructors go through
-   arctan2 / radians / sin / cos, which NumOps does not have: they are modelled by hand below, in the code's loop shape,
-   with the angle given by its (cos, sin) pair and the angle-addition identities applied by hand
-       r cos(theta + a) = x cos a - y sin a ,   r sin(theta + a) = y cos a + x sin a      (r cos theta = x, r sin theta = y)
-   (modelled, not verified; validated numerically by the correspondence run).  No proofs here. *)
+   The model of every anchored routine is GENERATED from /repo on every run (Gen/Gen_geometry.v, py2v plug-in
+   py2v/gen_geometry.py).  The elliptical constructors go through arctan2 / radians / sin / cos: they are generated over R
+   only and cannot be executed.  Their EXECUTABLE form is written here by hand in the code's loop shape, with the angle
+   given by its (cos, sin) pair and the angle-addition identities applied
+       r cos(theta + a) = x cos a - y sin a ,   r sin(theta + a) = y cos a + x sin a      (r cos theta = x, r sin theta = y);
+   Proofs/C02r.v proves that it equals the generated trigonometric code for every angle (C02_elliptical_executable_model).
+   No proofs here. *)
 From Coq Require Import ZArith List Bool QArith.
 From PAV Require Import Base.Res Base.Check Base.NumOps Gen.Gen_geometry Model.C02.
 Import ListNotations.
